@@ -45,7 +45,8 @@ def getmap(I, v):
     if isinstance(v, MapV): return v
     raise Unsupported(f'not a map {v!r}')
 def kty_of(m):
-    try: return first_generic(m.group(0))[0]
+    try:
+        t = m.group(0); return first_generic(t[t.index('BTreeMap'):])[0]
     except Exception: return None
 
 @model(r'^<' + BT + r'<.*> as Default>::default$|^' + BT + r'::<.*>::new$')
@@ -106,7 +107,7 @@ def map_clone(I, m, a, dt):
 @model(r'^<' + BT + r'<.*> as (?:std::cmp::)?PartialEq>::(eq|ne)$')
 def map_eq(I, m, a, dt):
     x = getmap(I, a[0]); y = getmap(I, a[1])
-    kty, vty = first_generic(m.group(0)[1:])[:2]
+    t = m.group(0); kty, vty = first_generic(t[t.index('BTreeMap'):])[:2]
     res = True
     if len(x.entries) != len(y.entries): res = False
     else:
